@@ -33,8 +33,8 @@ def slim(e):
 
 def run(ctx):
     q = ctx.quick
-    ctx.rule = ("MC: from each of the 81 (thorough: 625) worlds of 2 directories x 2 names x {absent, immutable file, directory(, writeable "
-                "mutable file, directory linked read-only with no-write metadata)} every request of MCWebOps' universe (every request kind of WebOps.tla x replace= none / false / only-files x "
+    ctx.rule = ("MC: from each of the 256 (thorough: 625) worlds of 2 directories x 2 names x {absent, immutable file, directory, writeable mutable "
+                "file(, directory linked read-only with no-write metadata)} every request of MCWebOps' universe (every request kind of WebOps.tla x replace= none / false / only-files x "
                 "format= x the slot itself / below an existing directory / below a missing one / below a file; quick: URLs starting at d1 "
                 "only, the worlds being symmetric), thorough also every sequence of 2 requests of the reduced universe from the 81 worlds and of 3 requests from the 16 worlds over {absent, directory}.  TRACE: seeded "
                 "histories of 30 (thorough 45) requests against the real web server starting from two empty directories; the generator "
@@ -50,7 +50,7 @@ def run(ctx):
                         "allmydata.dirnode.time rebound to a pinned clock, one tick per request",
                         "one gateway, one request at a time, all storage servers up (k=1, n=2 on 2 servers)",
                         "writes are made with write-caps all the way (read-only refusals: C41; here only three probes)"]
-    c1 = {"RawNames": '{"a", "e2"}', "SlotKinds": '{"absent", "file", "dir"}' if q else '{"absent", "file", "dir", "mfile", "rodir"}',
+    c1 = {"RawNames": '{"a", "e2"}', "SlotKinds": '{"absent", "file", "dir", "mfile"}' if q else '{"absent", "file", "dir", "mfile", "rodir"}',
           "StartDirs": '{"d1"}' if q else '{"d1", "d2"}', "MaxOps": 1, "Small": "TRUE" if q else "FALSE"}
     ctx.constants["MC_WebOps"] = c1
     ctx.mc("frontends/MCWebOps", cfg_of(c1), name="MC WebOps (every world x every request)", timeout=6000, coverage=False)
@@ -62,7 +62,7 @@ def run(ctx):
         ctx.constants["MC_WebOps_depth3"] = c3
         ctx.mc("frontends/MCWebOps", cfg_of(c3), name="MC WebOps (sequences of 3 requests)", timeout=6000, coverage=False)
 
-    traces = ctx.impl("harness/webops_driver.py", ["--n", 20 if q else 400, "--len", 36 if q else 50, "--jobs", 4], timeout=6000)
+    traces = ctx.impl("harness/webops_driver.py", ["--n", 28 if q else 400, "--len", 36 if q else 50, "--jobs", 4], timeout=6000)
     reqs = 0
     for tr in traces:
         evs = tr["events"]
